@@ -602,3 +602,127 @@ Section Provide.
     exfalso. apply Hne. apply (proj1 (provide_accepts s idx secret s' E)); assumption.
   Qed.
 End Provide.
+
+(* ------------------------------------------------------------------------------------------ *)
+(** * A forged secret for the next index needs a hash collision *)
+
+Section Forgery.
+  Variable H : bytes -> bytes.
+  Variable seed : bytes.
+  Notation gen := (build_commitment_secret H seed).
+  Notation place := place_secret.
+
+  (** deriving an index whose only set bit below [n] is bit [i]: one flip, one hash *)
+  Lemma derive_loop_single_bit a i res : forall n : nat, 0 <= i < Z.of_nat n ->
+    (forall b, 0 <= b < Z.of_nat n -> Z.testbit a b = (b =? i)) ->
+    derive_loop H n a res = H (flip_bit i res).
+  Proof.
+    induction n as [|b IH]; intros Hi Hbits; [lia|]. cbn [derive_loop]. unfold derive_step.
+    rewrite bit_set_testbit by lia. rewrite Hbits by lia.
+    destruct (Z.eqb_spec (Z.of_nat b) i) as [E|NE].
+    - subst i. apply derive_loop_low_zero. intros c Hc. rewrite Hbits by lia.
+      apply Z.eqb_neq. lia.
+    - apply IH; [lia|]. intros c Hc. apply Hbits. lia.
+  Qed.
+
+  Lemma bits_of_idx_plus_pow idx pos i b : 0 <= i < pos -> 0 <= b < pos -> 0 <= idx ->
+    idx mod 2 ^ pos = 0 -> Z.testbit (idx + 2 ^ i) b = (b =? i).
+  Proof.
+    intros Hi Hb Hidx Hm.
+    assert (Hpos : 0 < 2 ^ pos) by (apply Z.pow_pos_nonneg; lia).
+    assert (Hlt : 2 ^ i < 2 ^ pos) by (apply Z.pow_lt_mono_r; lia).
+    assert (Hpi : 0 < 2 ^ i) by (apply Z.pow_pos_nonneg; lia).
+    rewrite <- (Z.mod_pow2_bits_low (idx + 2 ^ i) pos b) by lia.
+    replace ((idx + 2 ^ i) mod 2 ^ pos) with (2 ^ i).
+    - rewrite Z.pow2_bits_eqb by lia. apply Z.eqb_sym.
+    - rewrite Z.add_mod, Hm, Z.add_0_l, Z.mod_mod by lia. symmetry. apply Z.mod_small. lia.
+  Qed.
+
+  (** the content of the lower slots when the next index to provide is [m - 1] *)
+  Lemma lower_slot_content m s i : 1 <= m <= 2 ^ 48 -> inv H seed m s ->
+    0 <= Z.of_nat i < place (m - 1) ->
+    nth i s dflt = (gen (m - 1 + 2 ^ Z.of_nat i), m - 1 + 2 ^ Z.of_nat i).
+  Proof.
+    intros Hm [Hlen Hall] Hi. set (idx := m - 1) in *. set (pos := place idx) in *.
+    pose proof (place_range idx) as Hpr. fold pos in Hpr.
+    pose proof (place_mod idx) as Hmod. fold pos in Hmod.
+    assert (Hpow : 0 < 2 ^ pos) by (apply Z.pow_pos_nonneg; lia).
+    set (P := 2 ^ Z.of_nat i). assert (HP : 0 < P) by (apply Z.pow_pos_nonneg; lia).
+    assert (Hdecomp : exists q, 0 <= q /\ idx = 2 ^ pos * q).
+    { exists (idx / 2 ^ pos). split; [apply Z.div_pos; unfold idx; lia|].
+      pose proof (Z.div_mod idx (2 ^ pos) ltac:(lia)). lia. }
+    destruct Hdecomp as (q & Hq & Eidx).
+    assert (Esplit : 2 ^ pos = P * 2 * 2 ^ (pos - Z.of_nat i - 1)).
+    { unfold P. replace pos with (Z.of_nat i + 1 + (pos - Z.of_nat i - 1)) at 1 by lia.
+      rewrite !Z.pow_add_r by lia. rewrite Z.pow_1_r. reflexivity. }
+    set (R := 2 ^ (pos - Z.of_nat i - 1)) in *.
+    assert (HR : 0 < R) by (apply Z.pow_pos_nonneg; lia).
+    assert (Ecand : idx + P = P * (2 * (R * q) + 1)) by (rewrite Eidx, Esplit; ring).
+    assert (Hplc : place (idx + P) = Z.of_nat i).
+    { rewrite Ecand. apply place_of_odd_mul; [lia|]. apply Z.mul_nonneg_nonneg; lia. }
+    assert (Hlt48 : idx + 2 ^ pos <= 2 ^ 48).
+    { assert (E48 : 2 ^ 48 = 2 ^ pos * 2 ^ (48 - pos)) by (rewrite <- Z.pow_add_r by lia; f_equal; lia).
+      assert (0 < 2 ^ (48 - pos)) by (apply Z.pow_pos_nonneg; lia).
+      rewrite Eidx, E48 in *. unfold idx in *. nia. }
+    assert (HPlt : P < 2 ^ pos) by (rewrite Esplit; nia).
+    assert (Hi49 : (i < 49)%nat) by lia.
+    destruct (Hall i Hi49) as [[_ Hnone]|(a & -> & Ha & Hpa & Hleast)].
+    - exfalso. apply (Hnone (idx + P)); [unfold idx in *; lia|exact Hplc].
+    - assert (Hale : a <= idx + P).
+      { destruct (Z_le_gt_dec a (idx + P)); [assumption|].
+        exfalso. apply (Hleast (idx + P)); [unfold idx in *; lia|exact Hplc]. }
+      assert (a = idx + P); [|subst a; reflexivity].
+      destruct (place_arith a ltac:(lia)) as [[E48 _]|[_ (qa & Hqa & Ea)]]; [lia|].
+      rewrite Hpa in Ea. fold P in Ea.
+      assert (Hgt : idx < a) by (unfold idx in *; lia).
+      rewrite Ea, Ecand in *. rewrite Eidx, Esplit in Hgt.
+      assert (R * q <= qa) by nia. assert (qa <= R * q) by nia. nia.
+  Qed.
+
+  (** If a store that was fed honestly down to index [m] accepts [secret] for index [m - 1], then
+      for every slot below that index's slot, [secret] and the honestly generated secret collide
+      under [H] after the same bit flip. With a collision-resistant [H] (and [flip_bit] being
+      injective on 32-byte values) an accepted secret IS the generated one whenever the index is
+      even; for odd indices there is no lower slot and nothing can be checked at that time (the
+      channel checks those against the announced commitment point instead). *)
+  Lemma forged_secret_collides m s secret s' i : 1 <= m <= 2 ^ 48 -> inv H seed m s ->
+    provide_secret H s (m - 1) secret = Some s' ->
+    0 <= Z.of_nat i < place (m - 1) ->
+    H (flip_bit (Z.of_nat i) secret) = H (flip_bit (Z.of_nat i) (gen (m - 1))).
+  Proof.
+    intros Hm Hinv Hp Hi. pose proof Hinv as [Hlen _].
+    pose proof (place_range (m - 1)) as Hpr. pose proof (place_mod (m - 1)) as Hmod.
+    destruct (provide_accepts H s (m - 1) secret s' Hp) as [Hcons _].
+    specialize (Hcons i ltac:(lia) ltac:(lia)).
+    rewrite (lower_slot_content m s i Hm Hinv Hi) in Hcons. cbn [fst snd] in Hcons.
+    assert (Hbits : forall b, 0 <= b < Z.of_nat (Z.to_nat (place (m - 1))) ->
+                    Z.testbit (m - 1 + 2 ^ Z.of_nat i) b = (b =? Z.of_nat i)).
+    { intros b Hb. rewrite Z2Nat.id in Hb by lia.
+      apply (bits_of_idx_plus_pow (m - 1) (place (m - 1))); lia. }
+    unfold derive_secret in Hcons.
+    rewrite (derive_loop_single_bit (m - 1 + 2 ^ Z.of_nat i) (Z.of_nat i) secret (Z.to_nat (place (m - 1)))) in Hcons;
+      [|rewrite Z2Nat.id by lia; lia|exact Hbits].
+    rewrite Hcons.
+    (* the generated secret of the slot's index, from the generated secret of [m - 1] *)
+    assert (Hpow : 0 < 2 ^ place (m - 1)) by (apply Z.pow_pos_nonneg; lia).
+    assert (HP : 0 < 2 ^ Z.of_nat i) by (apply Z.pow_pos_nonneg; lia).
+    assert (HPlt : 2 ^ Z.of_nat i < 2 ^ place (m - 1)) by (apply Z.pow_lt_mono_r; lia).
+    rewrite <- (derive_from_prefix H seed (m - 1 + 2 ^ Z.of_nat i) (m - 1) (place (m - 1))); try lia.
+    - unfold derive_secret. apply derive_loop_single_bit; [rewrite Z2Nat.id by lia; lia|exact Hbits].
+    - pose proof (Z.div_mod (m - 1) (2 ^ place (m - 1)) ltac:(lia)) as Ed. rewrite Hmod in Ed.
+      symmetry. apply Z.div_unique with (2 ^ Z.of_nat i); [left; lia|].
+      rewrite Z.add_0_r in Ed. rewrite <- Ed. ring.
+  Qed.
+
+  Lemma forged_after_feed (n : nat) s secret s' (i : nat) : Z.of_nat n < 2 ^ 48 ->
+    feed H seed n = Some s ->
+    provide_secret H s (2 ^ 48 - Z.of_nat n - 1) secret = Some s' ->
+    Z.of_nat i < place (2 ^ 48 - Z.of_nat n - 1) ->
+    H (flip_bit (Z.of_nat i) secret) = H (flip_bit (Z.of_nat i) (gen (2 ^ 48 - Z.of_nat n - 1))).
+  Proof.
+    intros Hn Hf Hp Hi. destruct (feed_inv H seed n ltac:(lia)) as (s0 & Hs0 & Hinv).
+    rewrite Hf in Hs0. injection Hs0 as <-.
+    apply (forged_secret_collides (2 ^ 48 - Z.of_nat n) s secret s' i); try assumption; lia.
+  Qed.
+End Forgery.
+
